@@ -368,22 +368,29 @@ type GoReplace struct {
 // records of kind "replace" and the require records carrying replace_* attributes, in the
 // arranged record order.
 func GoModReplaces(recs []Record, l Layout) []GoReplace {
+	out, _ := goModReplacesAt(recs, l)
+	return out
+}
+
+// goModReplacesAt also returns, for each directive, the index of the record carrying it.
+func goModReplacesAt(recs []Record, l Layout) (out []GoReplace, at []int) {
 	f := formats["gomod"]
-	var out []GoReplace
 	for _, i := range arrange(f, recs, l) {
 		r := recs[i]
 		switch {
 		case r.A("kind") == "replace":
 			out = append(out, GoReplace{r.Name, r.Version, r.A("replace_name"), r.A("replace_version")})
+			at = append(at, i)
 		case r.A("kind") == "" && r.A("replace_name") != "":
 			d := GoReplace{r.Name, r.Version, r.A("replace_name"), r.A("replace_version")}
 			if r.A("replace_all") != "" {
 				d.OldVersion = ""
 			}
 			out = append(out, d)
+			at = append(at, i)
 		}
 	}
-	return out
+	return out, at
 }
 
 // goModResolve applies the replace directives to one required module version the way the
